@@ -1,3 +1,4 @@
+import Harper.Lemmas.LexExt
 import Harper.Lemmas.Rules
 import Harper.Lemmas.RulesPattern
 import Harper.Props.C12
@@ -411,5 +412,1091 @@ theorem repeatedWords_lint_append (env : Env) (P D : List Char) (A0 : List Tok) 
       lintBy iterChunks (asRule (repeatedWordsPiece env)) P (A0 ++ [brk]) ++
         shiftLints P.length (lintBy iterChunks (asRule (repeatedWordsPiece env)) D td) :=
   lint_append_chunks _ (asRule_xlocal _ (repeatedWords_xlocal env)) P D A0 brk hb td tpd hin hdoc
+
+/-! ## non-vacuity, continued; the `Consequently` clause; the modelled url / e-mail / hostname lexers -/
+
+theorem clsOK_ascii : ClsOK asciiCls := ⟨by decide, by decide, by
+  intro c h
+  simp only [asciiCls, isAsciiDigit, Bool.and_eq_true, decide_eq_true_eq] at h
+  refine ⟨?_, ?_, ?_⟩
+  · simp only [isAsciiAlpha, Bool.or_eq_false_iff, Bool.and_eq_false_imp, decide_eq_true_eq, decide_eq_false_iff_not]
+    constructor <;> intro h3 <;> intro h4
+    · exact absurd (Char.le_trans h3 h.2) (by decide)
+    · exact absurd (Char.le_trans h3 h.2) (by decide)
+  · intro hc; subst hc; exact absurd h.1 (by decide)
+  · intro hc; subst hc; exact absurd h.1 (by decide)⟩
+
+/-- non-vacuity of `document_tokOK`: the document of `It cost 4$. 1st` -/
+example : ∀ t ∈ [(⟨⟨0, 2⟩, .word⟩ : Tok), ⟨⟨2, 3⟩, .space 1⟩, ⟨⟨3, 7⟩, .word⟩, ⟨⟨7, 8⟩, .space 1⟩, ⟨⟨8, 9⟩, .number 10 none⟩,
+      ⟨⟨9, 10⟩, .punct .Currency⟩, ⟨⟨10, 11⟩, .punct .Period⟩, ⟨⟨11, 12⟩, .space 1⟩, ⟨⟨12, 15⟩, .number 10 (some .st)⟩], tokOK t = true :=
+  document_tokOK asciiCls noExt ['I', 't', ' ', 'c', 'o', 's', 't', ' ', '4', '$', '.', ' ', '1', 's', 't'] (fun _ _ _ h => by cases h) _ rfl
+
+/-- with no url / e-mail / hostname token anywhere, `ParagraphPair` is four decidable conditions on the characters -/
+theorem paragraphPair_noExt (cls : Cls) (hc : ClsOK cls) (P0 D : List Char) (k : Nat) (hk : 2 ≤ k) (hend : NoNlEnd P0)
+    (hD : D.head? ≠ some '\n') (hq : NoQuoteChars (P0 ++ List.replicate k '\n')) :
+    ParagraphPair cls P0 D k noExt noExt noExt where
+  cls_ok := hc
+  two := hk
+  no_nl_end := hend
+  d_head := hD
+  no_quotes := hq
+  ext_local := ⟨fun _ _ => rfl, fun _ => rfl⟩
+  ext_ok_p := by intro _ _ _ h; cases h
+  ext_ok_d := by intro _ _ _ h; cases h
+  ext_no_nl := by intro _ _ _ h; cases h
+
+/-- behind `P`, the table of the three MODELLED lexers (`Model/LexExt.lean`) for `P ++ D` is their table for `D` -/
+theorem extOfSrc_behind (P D : List Char) (i : Nat) : extOfSrc (P ++ D) (P.length + i) = extOfSrc D i := by
+  simp only [extOfSrc, List.drop_length_add_append]
+
+/-- **`ParagraphPair` for the url / e-mail / hostname lexers AS MODELLED (`extOfSrc`: the tables computed from the
+texts, not handed over), from conditions on the characters only — every one decidable** (the quantifiers are
+bounded): inside `P` the three lexers find the same with and without `D` behind (`hloc`: false exactly for the
+recorded finding `c12-lex-at-lookahead`, see below), and no token they find in `P` contains a newline (`hnl`).
+`ExtOK` is `extOfSrc_ok`; the half of `ExtLocal` behind `P` is unconditional. -/
+theorem paragraphPair_of_text (cls : Cls) (hc : ClsOK cls) (P0 D : List Char) (k : Nat) (hk : 2 ≤ k) (hend : NoNlEnd P0)
+    (hD : D.head? ≠ some '\n') (hq : NoQuoteChars (P0 ++ List.replicate k '\n'))
+    (hloc : ∀ pos, pos < (P0 ++ List.replicate k '\n').length →
+      extOfSrc ((P0 ++ List.replicate k '\n') ++ D) pos = extOfSrc (P0 ++ List.replicate k '\n') pos)
+    (hnl : ∀ pos, pos < (P0 ++ List.replicate k '\n').length → ∀ kn ∈ extOfSrc (P0 ++ List.replicate k '\n') pos,
+      ∀ c ∈ ((P0 ++ List.replicate k '\n').drop pos).take kn.2, c ≠ '\n') :
+    ParagraphPair cls P0 D k (extOfSrc (P0 ++ List.replicate k '\n')) (extOfSrc D)
+      (extOfSrc ((P0 ++ List.replicate k '\n') ++ D)) where
+  cls_ok := hc
+  two := hk
+  no_nl_end := hend
+  d_head := hD
+  no_quotes := hq
+  ext_local := ⟨hloc, extOfSrc_behind _ D⟩
+  ext_ok_p := extOfSrc_ok _
+  ext_ok_d := extOfSrc_ok _
+  ext_no_nl := by
+    intro pos kd n h
+    by_cases hp : pos < (P0 ++ List.replicate k '\n').length
+    · exact hnl pos hp (kd, n) h
+    · intro c hc
+      rw [List.drop_eq_nil_of_le (by omega)] at hc
+      simp at hc
+
+/-- non-vacuity of `paragraphPair_of_text`: `It cost 4$, ask a@b.c now.¶¶` + `the the: 4$` — real words in both texts, an e-mail
+address in `P` (so the table is not empty), a colon and no `@` in `D`; every condition is checked by evaluation -/
+theorem paragraphPair_mail : ParagraphPair asciiCls ['I', 't', ' ', 'c', 'o', 's', 't', ' ', '4', '$', ',', ' ', 'a', 's', 'k', ' ', 'a', '@', 'b', '.', 'c', ' ', 'n', 'o', 'w', '.']
+    ['t', 'h', 'e', ' ', 't', 'h', 'e', ':', ' ', '4', '$'] 2
+    (extOfSrc (['I', 't', ' ', 'c', 'o', 's', 't', ' ', '4', '$', ',', ' ', 'a', 's', 'k', ' ', 'a', '@', 'b', '.', 'c', ' ', 'n', 'o', 'w', '.'] ++ List.replicate 2 '\n'))
+    (extOfSrc ['t', 'h', 'e', ' ', 't', 'h', 'e', ':', ' ', '4', '$'])
+    (extOfSrc ((['I', 't', ' ', 'c', 'o', 's', 't', ' ', '4', '$', ',', ' ', 'a', 's', 'k', ' ', 'a', '@', 'b', '.', 'c', ' ', 'n', 'o', 'w', '.'] ++ List.replicate 2 '\n') ++
+      ['t', 'h', 'e', ' ', 't', 'h', 'e', ':', ' ', '4', '$'])) :=
+  paragraphPair_of_text asciiCls clsOK_ascii _ _ 2 (by decide) (by decide) (by decide) (by decide) (by decide) (by decide)
+
+/-- the table is not empty: the e-mail address at 16..21 -/
+example : extOfSrc (['I', 't', ' ', 'c', 'o', 's', 't', ' ', '4', '$', ',', ' ', 'a', 's', 'k', ' ', 'a', '@', 'b', '.', 'c', ' ', 'n', 'o', 'w', '.'] ++ List.replicate 2 '\n') 16 = some (.email, 5) := by
+  decide
+
+/-- … and the conclusion of `currencyPlacement_paragraphs_separately` / `repeatedWords_paragraphs_separately` on it, computed
+with the modelled lexers: lints in BOTH paragraphs (`4$` at 8..10; `the the` and `4$` behind, moved by 28) -/
+example : docRule asciiCls (extOfSrc ((['I', 't', ' ', 'c', 'o', 's', 't', ' ', '4', '$', ',', ' ', 'a', 's', 'k', ' ', 'a', '@', 'b', '.', 'c', ' ', 'n', 'o', 'w', '.'] ++ List.replicate 2 '\n') ++ ['t', 'h', 'e', ' ', 't', 'h', 'e', ':', ' ', '4', '$']))
+      (ruleCurrencyPlacement env0) ((['I', 't', ' ', 'c', 'o', 's', 't', ' ', '4', '$', ',', ' ', 'a', 's', 'k', ' ', 'a', '@', 'b', '.', 'c', ' ', 'n', 'o', 'w', '.'] ++ List.replicate 2 '\n') ++ ['t', 'h', 'e', ' ', 't', 'h', 'e', ':', ' ', '4', '$']) =
+    .ok [⟨⟨8, 10⟩, [.replaceWith ['$', '4']], 2, 0⟩, ⟨⟨37, 39⟩, [.replaceWith ['$', '4']], 2, 0⟩] := by decide
+
+example : docRule asciiCls (extOfSrc ((['I', 't', ' ', 'c', 'o', 's', 't', ' ', '4', '$', ',', ' ', 'a', 's', 'k', ' ', 'a', '@', 'b', '.', 'c', ' ', 'n', 'o', 'w', '.'] ++ List.replicate 2 '\n') ++ ['t', 'h', 'e', ' ', 't', 'h', 'e', ':', ' ', '4', '$']))
+      (ruleRepeatedWords env0) ((['I', 't', ' ', 'c', 'o', 's', 't', ' ', '4', '$', ',', ' ', 'a', 's', 'k', ' ', 'a', '@', 'b', '.', 'c', ' ', 'n', 'o', 'w', '.'] ++ List.replicate 2 '\n') ++ ['t', 'h', 'e', ' ', 't', 'h', 'e', ':', ' ', '4', '$']) =
+    .ok [⟨⟨28, 35⟩, [.replaceWith ['t', 'h', 'e']], 5, 0⟩] := by decide
+
+/-- **`hloc` is what the recorded finding `c12-lex-at-lookahead` violates**, here with the lexers as modelled: with an
+`@` in `D` (`Ping @x.`) `lex_email_address` takes the LAST `@` of the whole rest of the text, the address in `P` is no
+longer found, and the document of the whole is not the two documents put together -/
+example : ¬ (∀ pos, pos < (['I', 't', ' ', 'c', 'o', 's', 't', ' ', '4', '$', ',', ' ', 'a', 's', 'k', ' ', 'a', '@', 'b', '.', 'c', ' ', 'n', 'o', 'w', '.'] ++ List.replicate 2 '\n').length →
+      extOfSrc ((['I', 't', ' ', 'c', 'o', 's', 't', ' ', '4', '$', ',', ' ', 'a', 's', 'k', ' ', 'a', '@', 'b', '.', 'c', ' ', 'n', 'o', 'w', '.'] ++ List.replicate 2 '\n') ++ ['P', 'i', 'n', 'g', ' ', '@', 'x', '.']) pos = extOfSrc (['I', 't', ' ', 'c', 'o', 's', 't', ' ', '4', '$', ',', ' ', 'a', 's', 'k', ' ', 'a', '@', 'b', '.', 'c', ' ', 'n', 'o', 'w', '.'] ++ List.replicate 2 '\n') pos) := by decide
+
+example : extOfSrc ((['I', 't', ' ', 'c', 'o', 's', 't', ' ', '4', '$', ',', ' ', 'a', 's', 'k', ' ', 'a', '@', 'b', '.', 'c', ' ', 'n', 'o', 'w', '.'] ++ List.replicate 2 '\n') ++ ['P', 'i', 'n', 'g', ' ', '@', 'x', '.']) 16 = none := by decide
+
+example : (document asciiCls (extOfSrc ((['I', 't', ' ', 'c', 'o', 's', 't', ' ', '4', '$', ',', ' ', 'a', 's', 'k', ' ', 'a', '@', 'b', '.', 'c', ' ', 'n', 'o', 'w', '.'] ++ List.replicate 2 '\n') ++ ['P', 'i', 'n', 'g', ' ', '@', 'x', '.'])) ((['I', 't', ' ', 'c', 'o', 's', 't', ' ', '4', '$', ',', ' ', 'a', 's', 'k', ' ', 'a', '@', 'b', '.', 'c', ' ', 'n', 'o', 'w', '.'] ++ List.replicate 2 '\n') ++ ['P', 'i', 'n', 'g', ' ', '@', 'x', '.'])).toOption ≠
+    (do let tp ← (document asciiCls (extOfSrc (['I', 't', ' ', 'c', 'o', 's', 't', ' ', '4', '$', ',', ' ', 'a', 's', 'k', ' ', 'a', '@', 'b', '.', 'c', ' ', 'n', 'o', 'w', '.'] ++ List.replicate 2 '\n')) (['I', 't', ' ', 'c', 'o', 's', 't', ' ', '4', '$', ',', ' ', 'a', 's', 'k', ' ', 'a', '@', 'b', '.', 'c', ' ', 'n', 'o', 'w', '.'] ++ List.replicate 2 '\n')).toOption
+        let td ← (document asciiCls (extOfSrc ['P', 'i', 'n', 'g', ' ', '@', 'x', '.']) ['P', 'i', 'n', 'g', ' ', '@', 'x', '.']).toOption
+        pure (tp ++ shiftDoc 28 tp.length td)) := by decide
+
+/-! ### "editing one paragraph never changes, moves or hides a lint in another paragraph" -/
+
+/-- **The second sentence of C12 for every rule that `Appends`** (the eleven rules above; every `MapPhraseLinter` and
+`ProperNounCapitalizationLinter` of `Props/C12c.lean`): two texts with the same continuation `D` behind different first
+paragraphs report the SAME lints `ld` for `D` — those of `D` checked alone — moved by `|P|` resp. `|P'|`: none changed,
+none hidden, none added. (With a panic on either side: `separately_of_appends`.) -/
+theorem edit_first_paragraph_rule (r : PieceRule) (hr : Appends r) (cls : Cls) (P0 P0' D : List Char) (k k' : Nat)
+    (extP extP' extD extPD extPD' : Ext) (h : ParagraphPair cls P0 D k extP extD extPD)
+    (h' : ParagraphPair cls P0' D k' extP' extD extPD') (lp lp' ld : List RuleLint)
+    (eP : docRule cls extP r (P0 ++ List.replicate k '\n') = .ok lp)
+    (eP' : docRule cls extP' r (P0' ++ List.replicate k' '\n') = .ok lp')
+    (eD : docRule cls extD r D = .ok ld) :
+    docRule cls extPD r ((P0 ++ List.replicate k '\n') ++ D) = .ok (lp ++ shiftRLs (P0 ++ List.replicate k '\n').length ld) ∧
+    docRule cls extPD' r ((P0' ++ List.replicate k' '\n') ++ D) = .ok (lp' ++ shiftRLs (P0' ++ List.replicate k' '\n').length ld) := by
+  rw [separately_of_appends r hr cls P0 D k extP extD extPD h, separately_of_appends r hr cls P0' D k' extP' extD extPD' h', eP, eP', eD]
+  exact ⟨rfl, rfl⟩
+
+/-- … and changing the text AFTER the paragraph break changes no lint of the first paragraph, not even its place -/
+theorem edit_later_text_rule (r : PieceRule) (hr : Appends r) (cls : Cls) (P0 D D' : List Char) (k : Nat)
+    (extP extD extD' extPD extPD' : Ext) (h : ParagraphPair cls P0 D k extP extD extPD)
+    (h' : ParagraphPair cls P0 D' k extP extD' extPD') (lp ld ld' : List RuleLint)
+    (eP : docRule cls extP r (P0 ++ List.replicate k '\n') = .ok lp)
+    (eD : docRule cls extD r D = .ok ld) (eD' : docRule cls extD' r D' = .ok ld') :
+    docRule cls extPD r ((P0 ++ List.replicate k '\n') ++ D) = .ok (lp ++ shiftRLs (P0 ++ List.replicate k '\n').length ld) ∧
+    docRule cls extPD' r ((P0 ++ List.replicate k '\n') ++ D') = .ok (lp ++ shiftRLs (P0 ++ List.replicate k '\n').length ld') := by
+  rw [separately_of_appends r hr cls P0 D k extP extD extPD h, separately_of_appends r hr cls P0 D' k extP extD' extPD' h', eP, eD, eD']
+  exact ⟨rfl, rfl⟩
+
+/-- a second first paragraph in front of the same `D`: `Pay 5$.¶¶` -/
+theorem paragraphPair_pay : ParagraphPair asciiCls ['P', 'a', 'y', ' ', '5', '$', '.']
+    ['t', 'h', 'e', ' ', 't', 'h', 'e', ':', ' ', '4', '$'] 2
+    (extOfSrc (['P', 'a', 'y', ' ', '5', '$', '.'] ++ List.replicate 2 '\n'))
+    (extOfSrc ['t', 'h', 'e', ' ', 't', 'h', 'e', ':', ' ', '4', '$'])
+    (extOfSrc ((['P', 'a', 'y', ' ', '5', '$', '.'] ++ List.replicate 2 '\n') ++ ['t', 'h', 'e', ' ', 't', 'h', 'e', ':', ' ', '4', '$'])) :=
+  paragraphPair_of_text asciiCls clsOK_ascii _ _ 2 (by decide) (by decide) (by decide) (by decide) (by decide) (by decide)
+
+/-- non-vacuity of `edit_first_paragraph_rule` (CurrencyPlacement, the modelled lexers): the first paragraph
+`It cost 4$, ask a@b.c now.¶¶` edited to `Pay 5$.¶¶`; the lint `4$` of `the the: 4$` is reported at 37..39 before
+and at 18..20 after — same lint, moved by the change of length -/
+example : docRule asciiCls (extOfSrc ((['I', 't', ' ', 'c', 'o', 's', 't', ' ', '4', '$', ',', ' ', 'a', 's', 'k', ' ', 'a', '@', 'b', '.', 'c', ' ', 'n', 'o', 'w', '.'] ++ List.replicate 2 '\n') ++ ['t', 'h', 'e', ' ', 't', 'h', 'e', ':', ' ', '4', '$'])) (ruleCurrencyPlacement env0)
+      ((['I', 't', ' ', 'c', 'o', 's', 't', ' ', '4', '$', ',', ' ', 'a', 's', 'k', ' ', 'a', '@', 'b', '.', 'c', ' ', 'n', 'o', 'w', '.'] ++ List.replicate 2 '\n') ++ ['t', 'h', 'e', ' ', 't', 'h', 'e', ':', ' ', '4', '$']) =
+      .ok ([⟨⟨8, 10⟩, [.replaceWith ['$', '4']], 2, 0⟩] ++ shiftRLs (['I', 't', ' ', 'c', 'o', 's', 't', ' ', '4', '$', ',', ' ', 'a', 's', 'k', ' ', 'a', '@', 'b', '.', 'c', ' ', 'n', 'o', 'w', '.'] ++ List.replicate 2 '\n').length [⟨⟨9, 11⟩, [.replaceWith ['$', '4']], 2, 0⟩]) ∧
+    docRule asciiCls (extOfSrc ((['P', 'a', 'y', ' ', '5', '$', '.'] ++ List.replicate 2 '\n') ++ ['t', 'h', 'e', ' ', 't', 'h', 'e', ':', ' ', '4', '$'])) (ruleCurrencyPlacement env0)
+      ((['P', 'a', 'y', ' ', '5', '$', '.'] ++ List.replicate 2 '\n') ++ ['t', 'h', 'e', ' ', 't', 'h', 'e', ':', ' ', '4', '$']) =
+      .ok ([⟨⟨4, 6⟩, [.replaceWith ['$', '5']], 2, 0⟩] ++ shiftRLs (['P', 'a', 'y', ' ', '5', '$', '.'] ++ List.replicate 2 '\n').length [⟨⟨9, 11⟩, [.replaceWith ['$', '4']], 2, 0⟩]) :=
+  edit_first_paragraph_rule _ (currencyPlacement_appends env0) asciiCls _ _ _ 2 2 _ _ _ _ _ paragraphPair_mail paragraphPair_pay
+    _ _ _ (by decide) (by decide) (by decide)
+
+/-- non-vacuity of `edit_later_text_rule`: `the the: 4$` edited to `Ping`: the lint of the first paragraph stays at 8..10 -/
+example : docRule asciiCls (extOfSrc ((['I', 't', ' ', 'c', 'o', 's', 't', ' ', '4', '$', ',', ' ', 'a', 's', 'k', ' ', 'a', '@', 'b', '.', 'c', ' ', 'n', 'o', 'w', '.'] ++ List.replicate 2 '\n') ++ ['t', 'h', 'e', ' ', 't', 'h', 'e', ':', ' ', '4', '$'])) (ruleCurrencyPlacement env0)
+      ((['I', 't', ' ', 'c', 'o', 's', 't', ' ', '4', '$', ',', ' ', 'a', 's', 'k', ' ', 'a', '@', 'b', '.', 'c', ' ', 'n', 'o', 'w', '.'] ++ List.replicate 2 '\n') ++ ['t', 'h', 'e', ' ', 't', 'h', 'e', ':', ' ', '4', '$']) =
+      .ok ([⟨⟨8, 10⟩, [.replaceWith ['$', '4']], 2, 0⟩] ++ shiftRLs (['I', 't', ' ', 'c', 'o', 's', 't', ' ', '4', '$', ',', ' ', 'a', 's', 'k', ' ', 'a', '@', 'b', '.', 'c', ' ', 'n', 'o', 'w', '.'] ++ List.replicate 2 '\n').length [⟨⟨9, 11⟩, [.replaceWith ['$', '4']], 2, 0⟩]) ∧
+    docRule asciiCls (extOfSrc ((['I', 't', ' ', 'c', 'o', 's', 't', ' ', '4', '$', ',', ' ', 'a', 's', 'k', ' ', 'a', '@', 'b', '.', 'c', ' ', 'n', 'o', 'w', '.'] ++ List.replicate 2 '\n') ++ ['P', 'i', 'n', 'g'])) (ruleCurrencyPlacement env0)
+      ((['I', 't', ' ', 'c', 'o', 's', 't', ' ', '4', '$', ',', ' ', 'a', 's', 'k', ' ', 'a', '@', 'b', '.', 'c', ' ', 'n', 'o', 'w', '.'] ++ List.replicate 2 '\n') ++ ['P', 'i', 'n', 'g']) =
+      .ok ([⟨⟨8, 10⟩, [.replaceWith ['$', '4']], 2, 0⟩] ++ shiftRLs (['I', 't', ' ', 'c', 'o', 's', 't', ' ', '4', '$', ',', ' ', 'a', 's', 'k', ' ', 'a', '@', 'b', '.', 'c', ' ', 'n', 'o', 'w', '.'] ++ List.replicate 2 '\n').length []) :=
+  edit_later_text_rule _ (currencyPlacement_appends env0) asciiCls _ _ _ 2 _ _ _ _ _ paragraphPair_mail
+    (paragraphPair_of_text asciiCls clsOK_ascii _ _ 2 (by decide) (by decide) (by decide) (by decide) (by decide) (by decide))
+    _ _ _ (by decide) (by decide) (by decide)
+
+/-- non-vacuity of `spaces_lint_append` / `repeatedWords_lint_append`: the documents of `a  b.¶¶` and `c c` -/
+example : lintBy iterSentences (asRule spacesPiece) (['a', ' ', ' ', 'b', '.', '\n', '\n'] ++ ['c', ' ', 'c'])
+      (([⟨⟨0, 1⟩, .word⟩, ⟨⟨1, 3⟩, .space 2⟩, ⟨⟨3, 4⟩, .word⟩, ⟨⟨4, 5⟩, .punct .Period⟩] ++ [⟨⟨5, 7⟩, .paragraphBreak⟩]) ++
+        shiftDoc 7 5 [⟨⟨0, 1⟩, .word⟩, ⟨⟨1, 2⟩, .space 1⟩, ⟨⟨2, 3⟩, .word⟩]) =
+    lintBy iterSentences (asRule spacesPiece) ['a', ' ', ' ', 'b', '.', '\n', '\n']
+        ([⟨⟨0, 1⟩, .word⟩, ⟨⟨1, 3⟩, .space 2⟩, ⟨⟨3, 4⟩, .word⟩, ⟨⟨4, 5⟩, .punct .Period⟩] ++ [⟨⟨5, 7⟩, .paragraphBreak⟩]) ++
+      shiftLints 7 (lintBy iterSentences (asRule spacesPiece) ['c', ' ', 'c'] [⟨⟨0, 1⟩, .word⟩, ⟨⟨1, 2⟩, .space 1⟩, ⟨⟨2, 3⟩, .word⟩]) :=
+  spaces_lint_append _ _ _ ⟨⟨5, 7⟩, .paragraphBreak⟩ rfl _ _ (by decide) rfl
+
+example : lintBy iterChunks (asRule (repeatedWordsPiece env0)) (['a', ' ', ' ', 'b', '.', '\n', '\n'] ++ ['c', ' ', 'c'])
+      (([⟨⟨0, 1⟩, .word⟩, ⟨⟨1, 3⟩, .space 2⟩, ⟨⟨3, 4⟩, .word⟩, ⟨⟨4, 5⟩, .punct .Period⟩] ++ [⟨⟨5, 7⟩, .paragraphBreak⟩]) ++
+        shiftDoc 7 5 [⟨⟨0, 1⟩, .word⟩, ⟨⟨1, 2⟩, .space 1⟩, ⟨⟨2, 3⟩, .word⟩]) =
+    lintBy iterChunks (asRule (repeatedWordsPiece env0)) ['a', ' ', ' ', 'b', '.', '\n', '\n']
+        ([⟨⟨0, 1⟩, .word⟩, ⟨⟨1, 3⟩, .space 2⟩, ⟨⟨3, 4⟩, .word⟩, ⟨⟨4, 5⟩, .punct .Period⟩] ++ [⟨⟨5, 7⟩, .paragraphBreak⟩]) ++
+      shiftLints 7 (lintBy iterChunks (asRule (repeatedWordsPiece env0)) ['c', ' ', 'c'] [⟨⟨0, 1⟩, .word⟩, ⟨⟨1, 2⟩, .space 1⟩, ⟨⟨2, 3⟩, .word⟩]) :=
+  repeatedWords_lint_append env0 _ _ _ ⟨⟨5, 7⟩, .paragraphBreak⟩ rfl _ _ (by decide) rfl
+
+/-- … and the lints they speak about: the double blank at 1..3 (Spaces), `c c` at 7..10 (RepeatedWords) -/
+example : lintBy iterSentences (asRule spacesPiece) (['a', ' ', ' ', 'b', '.', '\n', '\n'] ++ ['c', ' ', 'c'])
+      (([⟨⟨0, 1⟩, .word⟩, ⟨⟨1, 3⟩, .space 2⟩, ⟨⟨3, 4⟩, .word⟩, ⟨⟨4, 5⟩, .punct .Period⟩] ++ [⟨⟨5, 7⟩, .paragraphBreak⟩]) ++
+        shiftDoc 7 5 [⟨⟨0, 1⟩, .word⟩, ⟨⟨1, 2⟩, .space 1⟩, ⟨⟨2, 3⟩, .word⟩]) = [⟨⟨1, 3⟩, 3⟩] ∧
+    lintBy iterChunks (asRule (repeatedWordsPiece env0)) (['a', ' ', ' ', 'b', '.', '\n', '\n'] ++ ['c', ' ', 'c'])
+      (([⟨⟨0, 1⟩, .word⟩, ⟨⟨1, 3⟩, .space 2⟩, ⟨⟨3, 4⟩, .word⟩, ⟨⟨4, 5⟩, .punct .Period⟩] ++ [⟨⟨5, 7⟩, .paragraphBreak⟩]) ++
+        shiftDoc 7 5 [⟨⟨0, 1⟩, .word⟩, ⟨⟨1, 2⟩, .space 1⟩, ⟨⟨2, 3⟩, .word⟩]) = [⟨⟨7, 10⟩, 5⟩] := by decide
+
+/-! ## the modelled url / e-mail / hostname lexers do not look past the newline that ends `P` — unless `D` contains `@` -/
+
+theorem position_append_some (p : Char → Bool) (a t : List Char) (i : Nat) (h : position p a = some i) :
+    position p (a ++ t) = some i := by
+  induction a generalizing i with
+  | nil => simp [position] at h
+  | cons c a ih =>
+    simp only [List.cons_append, position] at h ⊢
+    split
+    · rename_i hc; simpa [hc] using h
+    · rename_i hc
+      simp only [hc] at h
+      cases hp : position p a with
+      | none => simp [hp] at h
+      | some j => rw [ih j hp]; simpa [hp] using h
+
+theorem position_append_none (p : Char → Bool) (a t : List Char) (h : position p a = none) :
+    position p (a ++ t) = (position p t).map (· + a.length) := by
+  induction a with
+  | nil => simp
+  | cons c a ih =>
+    simp only [List.cons_append, position] at h ⊢
+    split
+    · rename_i hc; simp [hc] at h
+    · rename_i hc
+      simp only [hc] at h
+      cases hp : position p a with
+      | some j => simp [hp] at h
+      | none =>
+        rw [ih hp]
+        cases position p t <;> simp
+        omega
+
+theorem position_none_iff (p : Char → Bool) (l : List Char) : position p l = none ↔ ∀ c ∈ l, p c = false := by
+  induction l with
+  | nil => simp [position]
+  | cons c l ih =>
+    simp only [position, List.mem_cons, forall_eq_or_imp]
+    split
+    · rename_i hc; simp [hc]
+    · rename_i hc
+      simp only [Option.map_eq_none_iff, ih, hc]
+      simp
+
+theorem position_spec (p : Char → Bool) (l : List Char) (i : Nat) (h : position p l = some i) :
+    ∃ c, l[i]? = some c ∧ p c = true ∧ ∀ d ∈ l.take i, p d = false := by
+  induction l generalizing i with
+  | nil => simp [position] at h
+  | cons c l ih =>
+    simp only [position] at h
+    split at h
+    · rename_i hc; cases h; exact ⟨c, rfl, hc, by simp⟩
+    · rename_i hc
+      cases hp : position p l with
+      | none => simp [hp] at h
+      | some j =>
+        simp [hp] at h
+        subst h
+        obtain ⟨d, h1, h2, h3⟩ := ih j hp
+        refine ⟨d, by simpa using h1, h2, ?_⟩
+        intro e he
+        simp only [List.take_succ_cons, List.mem_cons] at he
+        rcases he with rfl | he
+        · simpa using hc
+        · exact h3 e he
+
+/-! ### the first `|a| + 1` characters -/
+
+theorem getElem?_nl (a D : List Char) (i : Nat) (h : i ≤ a.length) : (a ++ '\n' :: D)[i]? = (a ++ ['\n'])[i]? := by
+  by_cases hi : i < a.length
+  · rw [List.getElem?_append_left hi, List.getElem?_append_left hi]
+  · have : i = a.length := by omega
+    subst this
+    simp
+
+theorem take_nl (a D : List Char) (i : Nat) (h : i ≤ a.length + 1) : (a ++ '\n' :: D).take i = (a ++ ['\n']).take i := by
+  by_cases hi : i ≤ a.length
+  · rw [List.take_append_of_le_length hi, List.take_append_of_le_length hi]
+  · have : i = a.length + 1 := by omega
+    subst this
+    rw [show a ++ '\n' :: D = (a ++ ['\n']) ++ D by simp]
+    rw [List.take_append_of_le_length (by simp)]
+
+/-! ### `lex_hostname` -/
+
+theorem nl_not_dot : ('\n' == '.') = false := by decide
+theorem nl_not_host : isHostChar '\n' = false := by decide
+
+theorem hostnameLoop_nl (D a : List Char) (passed : Nat) :
+    hostnameLoop passed (a ++ '\n' :: D) = hostnameLoop passed (a ++ ['\n']) := by
+  induction a generalizing passed with
+  | nil => simp [hostnameLoop, nl_not_dot, nl_not_host]
+  | cons c a ih =>
+    simp only [List.cons_append, hostnameLoop]
+    split
+    · exact ih _
+    · split
+      · exact ih _
+      · rfl
+
+theorem hostnameLoop_nl_le (t a : List Char) (passed : Nat) : hostnameLoop passed (a ++ '\n' :: t) ≤ passed + a.length := by
+  induction a generalizing passed with
+  | nil => simp [hostnameLoop, nl_not_dot, nl_not_host]
+  | cons c a ih =>
+    simp only [List.cons_append, hostnameLoop, List.length_cons]
+    split
+    · have := ih (passed + 1); omega
+    · split
+      · have := ih (passed + 1); omega
+      · omega
+
+theorem lexHostname_nl (D a : List Char) : lexHostname (a ++ '\n' :: D) = lexHostname (a ++ ['\n']) := by
+  cases a with
+  | nil => rfl
+  | cons c a =>
+    simp only [lexHostname, List.cons_append]
+    split
+    · rfl
+    · have := hostnameLoop_nl D (c :: a) 0
+      simp only [List.cons_append] at this
+      rw [this]
+
+theorem lexHostname_nl_le (t a : List Char) (n : Nat) (h : lexHostname (a ++ '\n' :: t) = some n) : n ≤ a.length := by
+  cases a with
+  | nil => simp [lexHostname, isAsciiAlnum, isAsciiDigit, isAsciiAlpha] at h
+  | cons c a =>
+    simp only [lexHostname, List.cons_append] at h
+    split at h
+    · cases h
+    · cases h
+      have := hostnameLoop_nl_le t (c :: a) 0
+      simpa using this
+
+theorem lexHostnameToken_nl (D a : List Char) : lexHostnameToken (a ++ '\n' :: D) = lexHostnameToken (a ++ ['\n']) := by
+  unfold lexHostnameToken
+  rw [lexHostname_nl D a]
+  cases h : lexHostname (a ++ ['\n']) with
+  | none => rfl
+  | some len =>
+    have hle : len ≤ a.length := lexHostname_nl_le [] a len h
+    simp only
+    split
+    · rfl
+    · have f1 : ¬ (a ++ '\n' :: D).length < len - 1 := by
+        simp only [List.length_append, List.length_cons]; omega
+      have f2 : ¬ (a ++ ['\n']).length < len - 1 := by
+        simp only [List.length_append, List.length_cons]; omega
+      rw [if_neg f1, if_neg f2, take_nl a D (len - 1) (by omega), getElem?_nl a D (len - 1) (by omega)]
+
+/-! ### `lex_email_address` -/
+
+theorem lastPosition_none (p : Char → Bool) (t : List Char) (ht : ∀ c ∈ t, p c = false) : lastPosition p t = none := by
+  induction t with
+  | nil => rfl
+  | cons c t ih =>
+    simp only [List.mem_cons, forall_eq_or_imp] at ht
+    simp only [lastPosition, ih ht.2, ht.1]
+    simp
+
+theorem lastPosition_append_none (p : Char → Bool) (a t : List Char) (ht : ∀ c ∈ t, p c = false) :
+    lastPosition p (a ++ t) = lastPosition p a := by
+  induction a with
+  | nil => simp [lastPosition_none p t ht, lastPosition]
+  | cons c a ih => simp only [List.cons_append, lastPosition, ih]
+
+theorem at_not_in_nl_cons (D : List Char) (hD : ∀ c ∈ D, c ≠ '@') : ∀ c ∈ '\n' :: D, (c == '@') = false := by
+  intro c hc
+  simp only [List.mem_cons] at hc
+  rcases hc with rfl | hc
+  · decide
+  · simpa using hD c hc
+
+theorem lexEmailAddress_nl (D a : List Char) (hD : ∀ c ∈ D, c ≠ '@') :
+    lexEmailAddress (a ++ '\n' :: D) = lexEmailAddress (a ++ ['\n']) := by
+  unfold lexEmailAddress
+  rw [lastPosition_append_none _ a ('\n' :: D) (at_not_in_nl_cons D hD),
+    lastPosition_append_none _ a ['\n'] (at_not_in_nl_cons [] (by simp))]
+  cases h : lastPosition (fun x => x == '@') a with
+  | none => rfl
+  | some atLoc =>
+    have hlt := lastPosition_lt _ a atLoc h
+    simp only
+    rw [List.take_append_of_le_length (by omega), List.take_append_of_le_length (by omega),
+      List.drop_append_of_le_length (by omega), List.drop_append_of_le_length (by omega), lexHostname_nl D]
+
+/-! ### `lex_url` -/
+
+theorem nl_not_xchar : (isReserved '\n' || isUnreserved '\n') = false := by decide
+theorem nl_not_hex : isAsciiHex '\n' = false := by decide
+
+theorem xchar_cons (c : Char) (cs : List Char) : lexXcharString (c :: cs) =
+    if isReserved c || isUnreserved c then lexXcharString cs + 1
+    else match cs with
+      | h1 :: h2 :: r => if c == '%' && isAsciiHex h1 && isAsciiHex h2 then lexXcharString r + 3 else 0
+      | _ => 0 := by
+  cases cs with
+  | nil => rfl
+  | cons h1 t =>
+    cases t with
+    | nil => rfl
+    | cons h2 r => rfl
+
+theorem xchar_nl (t : List Char) : lexXcharString ('\n' :: t) = 0 := by
+  rw [xchar_cons, nl_not_xchar]
+  have : ('\n' == '%') = false := by decide
+  simp only [this, Bool.false_and, Bool.false_eq_true, if_false]
+  split <;> rfl
+
+theorem lexXcharString_nl_aux (D : List Char) : ∀ (n : Nat) (b : List Char), b.length ≤ n →
+    lexXcharString (b ++ '\n' :: D) = lexXcharString (b ++ ['\n']) ∧ lexXcharString (b ++ ['\n']) ≤ b.length := by
+  intro n
+  induction n with
+  | zero =>
+    intro b hb
+    have : b = [] := List.eq_nil_of_length_eq_zero (by omega)
+    subst this
+    rw [List.nil_append, List.nil_append, xchar_nl, xchar_nl]
+    exact ⟨rfl, Nat.le_refl _⟩
+  | succ n ih =>
+    intro b hb
+    cases b with
+    | nil => exact ih [] (by simp)
+    | cons c b =>
+      simp only [List.length_cons] at hb
+      simp only [List.cons_append, List.length_cons]
+      rw [xchar_cons c (b ++ '\n' :: D), xchar_cons c (b ++ ['\n'])]
+      split
+      · obtain ⟨e, l⟩ := ih b (by omega)
+        exact ⟨by rw [e], by omega⟩
+      · cases b with
+        | nil =>
+          cases D with
+          | nil => exact ⟨rfl, Nat.zero_le _⟩
+          | cons h2 r =>
+            simp only [List.nil_append, nl_not_hex, Bool.and_false, Bool.false_and, Bool.false_eq_true, if_false]
+            exact ⟨trivial, Nat.zero_le _⟩
+        | cons h1 b =>
+          cases b with
+          | nil =>
+            simp only [List.nil_append, List.cons_append, nl_not_hex, Bool.and_false, Bool.false_eq_true, if_false]
+            exact ⟨trivial, Nat.zero_le _⟩
+          | cons h2 r =>
+            simp only [List.cons_append, List.length_cons] at hb ⊢
+            obtain ⟨e, l⟩ := ih r (by omega)
+            split
+            · exact ⟨by rw [e], by omega⟩
+            · exact ⟨rfl, by omega⟩
+
+theorem lexXcharString_nl (D b : List Char) : lexXcharString (b ++ '\n' :: D) = lexXcharString (b ++ ['\n']) :=
+  (lexXcharString_nl_aux D b.length b (Nat.le_refl _)).1
+
+theorem lexXcharString_nl_le (b : List Char) : lexXcharString (b ++ ['\n']) ≤ b.length :=
+  (lexXcharString_nl_aux [] b.length b (Nat.le_refl _)).2
+
+theorem pathLoop_nl (D : List Char) : ∀ (fuel : Nat) (b : List Char),
+    pathLoop fuel (b ++ '\n' :: D) = pathLoop fuel (b ++ ['\n']) := by
+  intro fuel
+  induction fuel with
+  | zero => intro b; rfl
+  | succ fuel ih =>
+    intro b
+    cases b with
+    | nil => rfl
+    | cons c b =>
+      simp only [List.cons_append, pathLoop]
+      split
+      · rfl
+      · rw [lexXcharString_nl D b]
+        split
+        · rfl
+        · rw [List.drop_append_of_le_length (lexXcharString_nl_le b), List.drop_append_of_le_length (lexXcharString_nl_le b), ih]
+
+theorem position_nl (p : Char → Bool) (hp : p '\n' = true) (b D : List Char) :
+    position p (b ++ '\n' :: D) = position p (b ++ ['\n']) ∧ ∃ i, position p (b ++ ['\n']) = some i ∧ i ≤ b.length := by
+  cases h : position p b with
+  | some i =>
+    rw [position_append_some p b _ i h, position_append_some p b _ i h]
+    exact ⟨rfl, i, rfl, Nat.le_of_lt (position_lt p b i h)⟩
+  | none =>
+    rw [position_append_none p b _ h, position_append_none p b _ h]
+    simp [position, hp]
+
+theorem nl_not_digit : (!isAsciiDigit '\n') = true := by decide
+
+theorem lexHostport_nl (D b : List Char) : lexHostport (b ++ '\n' :: D) = lexHostport (b ++ ['\n']) ∧
+    ∀ n, lexHostport (b ++ ['\n']) = some n → n ≤ b.length := by
+  unfold lexHostport
+  rw [lexHostname_nl D b]
+  cases h : lexHostname (b ++ ['\n']) with
+  | none => exact ⟨rfl, fun _ h => by cases h⟩
+  | some he =>
+    have hle : he ≤ b.length := lexHostname_nl_le [] b he h
+    simp only
+    rw [getElem?_nl b D he hle]
+    obtain ⟨e, i, hi, hil⟩ := position_nl (fun c => !isAsciiDigit c) nl_not_digit b D
+    split
+    · rw [e, hi]
+      refine ⟨rfl, ?_⟩
+      intro n hn
+      simp only [Option.getD_some, Option.some.injEq] at hn
+      omega
+    · refine ⟨rfl, ?_⟩
+      intro n hn
+      cases hn
+      exact hle
+
+theorem position_at_nl (r D : List Char) (hD : ∀ c ∈ D, c ≠ '@') :
+    (∃ i, i < r.length ∧ position (· == '@') r = some i ∧ position (· == '@') (r ++ '\n' :: D) = some i ∧
+      position (· == '@') (r ++ ['\n']) = some i) ∨
+    (position (· == '@') (r ++ '\n' :: D) = none ∧ position (· == '@') (r ++ ['\n']) = none) := by
+  cases h : position (· == '@') r with
+  | some i =>
+    exact Or.inl ⟨i, position_lt _ r i h, rfl, position_append_some _ r _ i h, position_append_some _ r _ i h⟩
+  | none =>
+    right
+    rw [position_append_none _ r _ h, position_append_none _ r _ h,
+      (position_none_iff _ ('\n' :: D)).mpr (at_not_in_nl_cons D hD),
+      (position_none_iff _ ['\n']).mpr (at_not_in_nl_cons [] (by simp))]
+    exact ⟨rfl, rfl⟩
+
+theorem loginHostportStart_nl (D r : List Char) (hD : ∀ c ∈ D, c ≠ '@') :
+    loginHostportStart (r ++ '\n' :: D) = loginHostportStart (r ++ ['\n']) ∧
+    ∀ hs, loginHostportStart (r ++ ['\n']) = some hs → hs ≤ r.length := by
+  unfold loginHostportStart
+  rcases position_at_nl r D hD with ⟨i, hi, _, e1, e2⟩ | ⟨e1, e2⟩
+  · rw [e1, e2]
+    simp only
+    rw [List.take_append_of_le_length (by omega), List.take_append_of_le_length (by omega)]
+    refine ⟨rfl, ?_⟩
+    intro hs h
+    split at h
+    · cases h
+    · split at h
+      · cases h
+      · cases h; omega
+  · rw [e1, e2]
+    exact ⟨rfl, fun hs h => by cases h; omega⟩
+
+theorem lexLogin_nl (D r : List Char) (hD : ∀ c ∈ D, c ≠ '@') :
+    lexLogin (r ++ '\n' :: D) = lexLogin (r ++ ['\n']) ∧ ∀ n, lexLogin (r ++ ['\n']) = some n → n ≤ r.length := by
+  unfold lexLogin
+  obtain ⟨e, hb⟩ := loginHostportStart_nl D r hD
+  rw [e]
+  cases h : loginHostportStart (r ++ ['\n']) with
+  | none => exact ⟨rfl, fun _ h => by cases h⟩
+  | some hs =>
+    have hle := hb hs h
+    simp only
+    rw [List.drop_append_of_le_length hle, List.drop_append_of_le_length hle]
+    obtain ⟨e2, hb2⟩ := lexHostport_nl D (r.drop hs)
+    rw [e2]
+    refine ⟨rfl, ?_⟩
+    intro n hn
+    cases h2 : lexHostport (List.drop hs r ++ ['\n']) with
+    | none => rw [h2] at hn; cases hn
+    | some he =>
+      rw [h2] at hn
+      cases hn
+      have := hb2 he h2
+      simp only [List.length_drop] at this
+      omega
+
+theorem ipSchemepart_slash (rest : List Char) : lexIpSchemepart ('/' :: '/' :: rest) =
+    some ((lexLogin rest).getD 0 + pathLoop (rest.length + 1) (rest.drop ((lexLogin rest).getD 0)) + 2) := rfl
+
+theorem ipSchemepart_none1 (c : Char) (t : List Char) (h : c ≠ '/') : lexIpSchemepart (c :: t) = none := by
+  unfold lexIpSchemepart
+  split
+  · rename_i heq; simp only [List.cons.injEq] at heq; exact absurd heq.1 h
+  · rfl
+
+theorem ipSchemepart_none2 (c d : Char) (t : List Char) (h : d ≠ '/') : lexIpSchemepart (c :: d :: t) = none := by
+  unfold lexIpSchemepart
+  split
+  · rename_i heq; simp only [List.cons.injEq] at heq; exact absurd heq.2.1 h
+  · rfl
+
+theorem lexIpSchemepart_nl (D a : List Char) (hD : ∀ c ∈ D, c ≠ '@') :
+    lexIpSchemepart (a ++ '\n' :: D) = lexIpSchemepart (a ++ ['\n']) := by
+  cases a with
+  | nil => rw [List.nil_append, List.nil_append, ipSchemepart_none1 _ _ (by decide), ipSchemepart_none1 _ _ (by decide)]
+  | cons c1 a =>
+    cases a with
+    | nil =>
+      simp only [List.cons_append, List.nil_append]
+      rw [ipSchemepart_none2 _ _ _ (by decide), ipSchemepart_none2 _ _ _ (by decide)]
+    | cons c2 r =>
+      simp only [List.cons_append]
+      by_cases h1 : c1 = '/'
+      · by_cases h2 : c2 = '/'
+        · subst h1; subst h2
+          rw [ipSchemepart_slash, ipSchemepart_slash]
+          obtain ⟨e, hb⟩ := lexLogin_nl D r hD
+          rw [e]
+          have hle : (lexLogin (r ++ ['\n'])).getD 0 ≤ r.length := by
+            cases h : lexLogin (r ++ ['\n']) with
+            | none => simp
+            | some n => simpa using hb n h
+          rw [List.drop_append_of_le_length hle, List.drop_append_of_le_length hle, pathLoop_nl D]
+          rw [pathLoop_fuel ((r ++ '\n' :: D).length + 1) ((r ++ ['\n']).length + 1)]
+          · simp only [List.length_append, List.length_drop, List.length_cons, List.length_nil]; omega
+          · simp only [List.length_append, List.length_drop, List.length_cons, List.length_nil]; omega
+        · rw [ipSchemepart_none2 _ _ _ h2, ipSchemepart_none2 _ _ _ h2]
+      · rw [ipSchemepart_none1 _ _ h1, ipSchemepart_none1 _ _ h1]
+
+theorem nl_not_scheme : validSchemeChar '\n' = false := by decide
+
+theorem lexUrl_nl (D a : List Char) (hD : ∀ c ∈ D, c ≠ '@') : lexUrl (a ++ '\n' :: D) = lexUrl (a ++ ['\n']) := by
+  unfold lexUrl
+  cases h : position (· == ':') a with
+  | some sep =>
+    have hlt := position_lt _ a sep h
+    rw [position_append_some _ a _ sep h, position_append_some _ a _ sep h]
+    simp only
+    rw [List.take_append_of_le_length (by omega), List.take_append_of_le_length (by omega),
+      List.drop_append_of_le_length (by omega), List.drop_append_of_le_length (by omega), lexIpSchemepart_nl D _ hD]
+  | none =>
+    rw [position_append_none _ a _ h, position_append_none _ a _ h]
+    have e2 : position (· == ':') ['\n'] = none := by decide
+    rw [e2]
+    cases h2 : position (· == ':') ('\n' :: D) with
+    | none => rfl
+    | some j =>
+      simp only [Option.map_some, Option.map_none]
+      have hj : j ≠ 0 := by
+        intro h0; subst h0
+        obtain ⟨c, hc1, hc2, _⟩ := position_spec _ _ _ h2
+        simp only [List.getElem?_cons_zero, Option.some.injEq] at hc1
+        subst hc1
+        revert hc2; decide
+      have : ((a ++ '\n' :: D).take (j + a.length)).all validSchemeChar = false := by
+        rw [List.all_eq_false]
+        refine ⟨'\n', ?_, by simp [nl_not_scheme]⟩
+        rw [List.mem_take_iff_getElem]
+        refine ⟨a.length, by simp; omega, by simp⟩
+      rw [this]
+      rfl
+
+/-- **the look-ahead of the three modelled lexers, stated on the characters**: behind a newline only an `@` can change
+what `lex_url` / `lex_email_address` / `lex_hostname_token` find before it (a `:` cannot: the scheme would contain the
+newline) -/
+theorem extOfSrc_nl (D a : List Char) (hD : ∀ c ∈ D, c ≠ '@') (pos : Nat) (hp : pos ≤ a.length) :
+    extOfSrc ((a ++ ['\n']) ++ D) pos = extOfSrc (a ++ ['\n']) pos := by
+  simp only [extOfSrc]
+  have e1 : ((a ++ ['\n']) ++ D).drop pos = a.drop pos ++ '\n' :: D := by
+    rw [List.append_assoc, List.drop_append_of_le_length hp]; rfl
+  have e2 : (a ++ ['\n']).drop pos = a.drop pos ++ ['\n'] := List.drop_append_of_le_length hp
+  rw [e1, e2, lexUrl_nl D _ hD, lexEmailAddress_nl D _ hD, lexHostnameToken_nl D]
+
+theorem extOfSrc_local_of_atFree (P0 D : List Char) (k : Nat) (hk : 1 ≤ k) (hD : ∀ c ∈ D, c ≠ '@') (pos : Nat)
+    (hp : pos < (P0 ++ List.replicate k '\n').length) :
+    extOfSrc ((P0 ++ List.replicate k '\n') ++ D) pos = extOfSrc (P0 ++ List.replicate k '\n') pos := by
+  obtain ⟨j, rfl⟩ : ∃ j, k = j + 1 := ⟨k - 1, by omega⟩
+  rw [List.replicate_succ', ← List.append_assoc] at hp ⊢
+  exact extOfSrc_nl D _ hD pos (by simp only [List.length_append, List.length_cons, List.length_nil] at hp ⊢; omega)
+
+/-! ### no token of the three modelled lexers contains a newline (in a text without `"`) -/
+
+theorem noNl_append {a b : List Char} (ha : NoNl a) (hb : NoNl b) : NoNl (a ++ b) := by
+  intro c hc
+  rcases List.mem_append.mp hc with h | h
+  · exact ha c h
+  · exact hb c h
+
+theorem noNl_take_add (l : List Char) (i j : Nat) (h1 : NoNl (l.take i)) (h2 : NoNl ((l.drop i).take j)) :
+    NoNl (l.take (i + j)) := by
+  rw [List.take_add]; exact noNl_append h1 h2
+
+theorem noNl_of_all (p : Char → Bool) (hp : p '\n' = false) (l : List Char) (h : ∀ c ∈ l, p c = true) : NoNl l := by
+  intro c hc e
+  subst e
+  have := h _ hc
+  rw [hp] at this
+  cases this
+
+theorem hostnameLoop_chars (s : List Char) (passed : Nat) :
+    ∃ m, hostnameLoop passed s = passed + m ∧ NoNl (s.take m) := by
+  induction s generalizing passed with
+  | nil => exact ⟨0, rfl, by intro c hc; simp at hc⟩
+  | cons c s ih =>
+    simp only [hostnameLoop]
+    split
+    · rename_i hc
+      obtain ⟨m, e, hm⟩ := ih (passed + 1)
+      refine ⟨m + 1, by omega, ?_⟩
+      intro d hd
+      simp only [List.take_succ_cons, List.mem_cons] at hd
+      rcases hd with rfl | hd
+      · intro e2; subst e2; exact absurd hc (by decide)
+      · exact hm d hd
+    · split
+      · rename_i hc
+        obtain ⟨m, e, hm⟩ := ih (passed + 1)
+        refine ⟨m + 1, by omega, ?_⟩
+        intro d hd
+        simp only [List.take_succ_cons, List.mem_cons] at hd
+        rcases hd with rfl | hd
+        · intro e2; subst e2; exact absurd hc (by decide)
+        · exact hm d hd
+      · exact ⟨0, rfl, by intro c hc; simp at hc⟩
+
+theorem lexHostname_noNl (s : List Char) (n : Nat) (h : lexHostname s = some n) : NoNl (s.take n) := by
+  unfold lexHostname at h
+  cases s with
+  | nil => cases h
+  | cons c s =>
+    simp only at h
+    split at h
+    · cases h
+    · cases h
+      obtain ⟨m, e, hm⟩ := hostnameLoop_chars (c :: s) 0
+      rw [e, Nat.zero_add]
+      exact hm
+
+theorem lexHostnameToken_noNl (s : List Char) (k : Kind) (n : Nat) (h : lexHostnameToken s = some (k, n)) :
+    NoNl (s.take n) := by
+  unfold lexHostnameToken at h
+  cases h1 : lexHostname s with
+  | none => rw [h1] at h; cases h
+  | some len =>
+    rw [h1] at h
+    simp only at h
+    split at h
+    · cases h
+    · split at h
+      · cases h
+      · split at h
+        · cases h
+        · split at h
+          · cases h
+          · cases h
+            exact lexHostname_noNl s _ h1
+
+theorem noNl_take_succ (l : List Char) (i : Nat) (h1 : NoNl (l.take i)) (h2 : ∀ c, l[i]? = some c → c ≠ '\n') :
+    NoNl (l.take (i + 1)) := by
+  rw [List.take_add_one]
+  refine noNl_append h1 ?_
+  intro c hc
+  cases h : l[i]? with
+  | none => rw [h] at hc; simp at hc
+  | some d =>
+    rw [h] at hc
+    simp only [Option.toList_some, List.mem_singleton] at hc
+    subst hc
+    exact h2 c h
+
+theorem lastPosition_spec (p : Char → Bool) (l : List Char) (i : Nat) (h : lastPosition p l = some i) :
+    ∃ c, l[i]? = some c ∧ p c = true := by
+  induction l generalizing i with
+  | nil => simp [lastPosition] at h
+  | cons c l ih =>
+    unfold lastPosition at h
+    split at h
+    · rename_i j hj
+      cases h
+      obtain ⟨d, h1, h2⟩ := ih j hj
+      exact ⟨d, by simpa using h1, h2⟩
+    · split at h
+      · rename_i hc; cases h; exact ⟨c, rfl, hc⟩
+      · cases h
+
+theorem nl_not_unquoted : validUnquotedChar '\n' = false := by decide
+
+theorem validateLocalPart_noNl (lp : List Char) (h : validateLocalPart lp = true) (hq : lp.head? ≠ some '"') : NoNl lp := by
+  have hq' : (lp.head? == some '"') = false := by simpa using hq
+  unfold validateLocalPart at h
+  simp only [hq', Bool.false_and, Bool.false_eq_true, if_false] at h
+  split at h
+  · cases h
+  · split at h
+    · cases h
+    · rename_i hall
+      simp only [Bool.not_eq_true', Bool.not_eq_false] at hall
+      exact noNl_of_all validUnquotedChar nl_not_unquoted lp (List.all_eq_true.mp hall)
+
+theorem lexEmailAddress_noNl (s : List Char) (k : Kind) (n : Nat) (h : lexEmailAddress s = some (k, n))
+    (hq : s.head? ≠ some '"') : NoNl (s.take n) := by
+  unfold lexEmailAddress at h
+  cases h1 : lastPosition (fun x => x == '@') s with
+  | none => rw [h1] at h; cases h
+  | some atLoc =>
+    rw [h1] at h
+    simp only at h
+    split at h
+    · cases h
+    · rename_i hv
+      simp only [Bool.not_eq_true', Bool.not_eq_false] at hv
+      cases h2 : lexHostname (s.drop (atLoc + 1)) with
+      | none => rw [h2] at h; cases h
+      | some dl =>
+        rw [h2] at h
+        simp only at h
+        split at h
+        · cases h
+        · cases h
+          obtain ⟨c, hc1, hc2⟩ := lastPosition_spec _ s atLoc h1
+          refine noNl_take_add s (atLoc + 1) dl ?_ (lexHostname_noNl _ _ h2)
+          refine noNl_take_succ s atLoc ?_ ?_
+          · apply validateLocalPart_noNl _ hv
+            rw [List.head?_take]
+            split
+            · simp
+            · exact hq
+          · intro d hd e
+            rw [hc1] at hd
+            cases hd
+            subst e
+            revert hc2; decide
+
+theorem lexXcharString_noNl (b : List Char) : NoNl (b.take (lexXcharString b)) := by
+  fun_induction lexXcharString b with
+  | case1 => intro c hc; simp at hc
+  | case2 c cs hx ih =>
+    intro d hd
+    simp only [List.take_succ_cons, List.mem_cons] at hd
+    rcases hd with rfl | hd
+    · intro e; subst e; rw [nl_not_xchar] at hx; cases hx
+    · exact ih d hd
+  | case3 c h1 h2 r hx hc ih =>
+    intro d hd
+    simp only [Bool.and_eq_true] at hc
+    simp only [List.take_succ_cons, List.mem_cons] at hd
+    rcases hd with rfl | rfl | rfl | hd
+    · intro e; subst e; exact absurd hc.1.1 (by decide)
+    · intro e; subst e; exact absurd hc.1.2 (by decide)
+    · intro e; subst e; exact absurd hc.2 (by decide)
+    · exact ih d hd
+  | case4 => intro c hc; simp at hc
+  | case5 => intro c hc; simp at hc
+
+theorem nl_not_uchar1 : ('\n' == ';' || '\n' == '?' || '\n' == '&' || '\n' == '=') = false := by decide
+theorem nl_not_unreserved : isUnreserved '\n' = false := by decide
+
+theorem isUcharPlusString_noNl (l : List Char) : isUcharPlusString l = true → NoNl l := by
+  fun_induction isUcharPlusString l with
+  | case1 => intro _ c hc; simp at hc
+  | case2 c cs hx ih =>
+    intro h d hd
+    simp only [List.mem_cons] at hd
+    rcases hd with rfl | hd
+    · intro e; subst e; rw [nl_not_uchar1] at hx; cases hx
+    · exact ih h d hd
+  | case3 c cs hx hu ih =>
+    intro h d hd
+    simp only [List.mem_cons] at hd
+    rcases hd with rfl | hd
+    · intro e; subst e; rw [nl_not_unreserved] at hu; cases hu
+    · exact ih h d hd
+  | case4 c h1 h2 r hx hu hc ih =>
+    intro h d hd
+    simp only [Bool.and_eq_true] at hc
+    simp only [List.mem_cons] at hd
+    rcases hd with rfl | rfl | rfl | hd
+    · intro e; subst e; exact absurd hc.1.1 (by decide)
+    · intro e; subst e; exact absurd hc.1.2 (by decide)
+    · intro e; subst e; exact absurd hc.2 (by decide)
+    · exact ih h d hd
+  | case5 => intro h; cases h
+  | case6 => intro h; cases h
+
+theorem nl_digit : isAsciiDigit '\n' = false := by decide
+
+theorem lexHostport_noNl (x : List Char) (he : Nat) (h : lexHostport x = some he) : NoNl (x.take he) := by
+  unfold lexHostport at h
+  cases h1 : lexHostname x with
+  | none => rw [h1] at h; cases h
+  | some hostnameEnd =>
+    rw [h1] at h
+    simp only at h
+    split at h
+    · cases h
+      cases hp : position (fun c => !isAsciiDigit c) x with
+      | none =>
+        simp only [Option.getD_none, List.take_length]
+        have := (position_none_iff _ x).mp hp
+        exact noNl_of_all isAsciiDigit nl_digit x (fun c hc => by simpa using this c hc)
+      | some i =>
+        simp only [Option.getD_some]
+        obtain ⟨_, _, _, h3⟩ := position_spec _ x i hp
+        exact noNl_of_all isAsciiDigit nl_digit _ (fun c hc => by simpa using h3 c hc)
+    · cases h
+      exact lexHostname_noNl x _ h1
+
+theorem lexLogin_noNl (rest : List Char) (n : Nat) (h : lexLogin rest = some n) : NoNl (rest.take n) := by
+  unfold lexLogin at h
+  simp only at h
+  cases h1 : loginHostportStart rest with
+  | none => rw [h1] at h; cases h
+  | some hs =>
+    rw [h1] at h
+    simp only at h
+    cases h2 : lexHostport (rest.drop hs) with
+    | none => rw [h2] at h; cases h
+    | some he =>
+      rw [h2] at h
+      cases h
+      refine noNl_take_add rest hs he ?_ (lexHostport_noNl _ _ h2)
+      unfold loginHostportStart at h1
+      cases hp : position (fun x => x == '@') rest with
+      | none => rw [hp] at h1; cases h1; intro c hc; simp at hc
+      | some credEnd =>
+        rw [hp] at h1
+        simp only at h1
+        split at h1
+        · cases h1
+        · split at h1
+          · cases h1
+          · rename_i hu
+            simp only [Bool.not_eq_true', Bool.not_eq_false] at hu
+            cases h1
+            obtain ⟨c, hc1, hc2, _⟩ := position_spec _ rest credEnd hp
+            refine noNl_take_succ rest credEnd (isUcharPlusString_noNl _ hu) ?_
+            intro d hd e
+            rw [hc1] at hd
+            cases hd
+            subst e
+            revert hc2; decide
+
+theorem pathLoop_noNl : ∀ (fuel : Nat) (b : List Char), NoNl (b.take (pathLoop fuel b)) := by
+  intro fuel
+  induction fuel with
+  | zero => intro b c hc; simp [pathLoop] at hc
+  | succ fuel ih =>
+    intro b
+    cases b with
+    | nil => intro c hc; simp at hc
+    | cons c r =>
+      simp only [pathLoop]
+      split
+      · intro c hc; simp at hc
+      · rename_i hsl
+        have hc : c = '/' := by simpa using hsl
+        subst hc
+        split
+        · intro d hd
+          simp only [List.take_succ_cons, List.take_zero, List.mem_singleton] at hd
+          subst hd; decide
+        · rw [show 1 + lexXcharString r + pathLoop fuel (r.drop (lexXcharString r)) =
+            (lexXcharString r + pathLoop fuel (r.drop (lexXcharString r))) + 1 by omega]
+          intro d hd
+          simp only [List.take_succ_cons, List.mem_cons] at hd
+          rcases hd with rfl | hd
+          · decide
+          · exact noNl_take_add r _ _ (lexXcharString_noNl r) (ih _) d hd
+
+theorem lexIpSchemepart_noNl (t : List Char) (m : Nat) (h : lexIpSchemepart t = some m) : NoNl (t.take m) := by
+  unfold lexIpSchemepart at h
+  split at h
+  · rename_i rest
+    simp only [Option.some.injEq] at h
+    subst h
+    intro d hd
+    simp only [List.take_succ_cons, List.mem_cons] at hd
+    rcases hd with rfl | rfl | hd
+    · decide
+    · decide
+    · refine noNl_take_add rest _ _ ?_ (pathLoop_noNl _ _) d hd
+      cases hl : lexLogin rest with
+      | none => intro c hc; simp at hc
+      | some n => simpa using lexLogin_noNl rest n hl
+  · cases h
+
+theorem lexUrl_noNl (s : List Char) (k : Kind) (n : Nat) (h : lexUrl s = some (k, n)) : NoNl (s.take n) := by
+  unfold lexUrl at h
+  cases hp : position (fun x => x == ':') s with
+  | none => rw [hp] at h; cases h
+  | some sep =>
+    rw [hp] at h
+    simp only at h
+    split at h
+    · cases h
+    · rename_i hall
+      simp only [Bool.not_eq_true', Bool.not_eq_false] at hall
+      cases h2 : lexIpSchemepart (s.drop (sep + 1)) with
+      | none => rw [h2] at h; cases h
+      | some urlEnd =>
+        rw [h2] at h
+        cases h
+        rw [show urlEnd + sep + 1 = (sep + 1) + urlEnd by omega]
+        refine noNl_take_add s _ _ ?_ (lexIpSchemepart_noNl _ _ h2)
+        obtain ⟨c, hc1, hc2, _⟩ := position_spec _ s sep hp
+        refine noNl_take_succ s sep (noNl_of_all validSchemeChar nl_not_scheme _ (List.all_eq_true.mp hall)) ?_
+        intro d hd e
+        rw [hc1] at hd
+        cases hd
+        subst e
+        revert hc2; decide
+
+/-- **no url / e-mail / hostname token of the modelled lexers contains a newline** when the text has no `"` (an
+e-mail address with a QUOTED local part may: `"a⏎b"@c.d`) -/
+theorem extOfSrc_noNl (P : List Char) (hq : NoQuoteChars P) : ExtNoNl (extOfSrc P) P := by
+  intro pos k n h
+  simp only [extOfSrc] at h
+  have hhead : (P.drop pos).head? ≠ some '"' := by
+    intro e
+    have : '"' ∈ P.drop pos := List.mem_of_mem_head? e
+    have := hq '"' (List.mem_of_mem_drop this)
+    revert this; decide
+  cases h1 : lexUrl (P.drop pos) with
+  | some f =>
+    rw [h1] at h
+    cases h
+    exact lexUrl_noNl _ _ _ h1
+  | none =>
+    rw [h1] at h
+    simp only at h
+    cases h2 : lexEmailAddress (P.drop pos) with
+    | some f =>
+      rw [h2] at h
+      cases h
+      exact lexEmailAddress_noNl _ _ _ h2 hhead
+    | none =>
+      rw [h2] at h
+      exact lexHostnameToken_noNl _ _ _ h
+
+/-! ## C12 end to end, from the characters of `P` and `D` and nothing else -/
+
+/-- **`ParagraphPair` holds of the three lexers as modelled whenever `D` contains no `@`** — the only condition beyond
+the wording of C12 (`P` a paragraph free of quotation marks followed by its break, `D` the rest); no hypothesis about
+tokens, tables or lexers is left. -/
+theorem paragraphPair_atFree (cls : Cls) (hc : ClsOK cls) (P0 D : List Char) (k : Nat) (hk : 2 ≤ k) (hend : NoNlEnd P0)
+    (hD : D.head? ≠ some '\n') (hq : NoQuoteChars (P0 ++ List.replicate k '\n')) (hat : ∀ c ∈ D, c ≠ '@') :
+    ParagraphPair cls P0 D k (extOfSrc (P0 ++ List.replicate k '\n')) (extOfSrc D)
+      (extOfSrc ((P0 ++ List.replicate k '\n') ++ D)) :=
+  paragraphPair_of_text cls hc P0 D k hk hend hD hq (extOfSrc_local_of_atFree P0 D k (by omega) hat)
+    (fun pos _ kn hkn => extOfSrc_noNl _ hq pos kn.1 kn.2 hkn)
+
+/-- **C12 for every rule that `Appends`, from the characters alone** (`parsePlainFull`'s table, i.e. every lexer
+modelled): the lints — or the panic — on `P ++ D` are those on `P` followed by those on `D` moved by `|P|`. -/
+theorem separately_atFree (r : PieceRule) (hr : Appends r) (cls : Cls) (hc : ClsOK cls) (P0 D : List Char) (k : Nat)
+    (hk : 2 ≤ k) (hend : NoNlEnd P0) (hD : D.head? ≠ some '\n') (hq : NoQuoteChars (P0 ++ List.replicate k '\n'))
+    (hat : ∀ c ∈ D, c ≠ '@') :
+    docRule cls (extOfSrc ((P0 ++ List.replicate k '\n') ++ D)) r ((P0 ++ List.replicate k '\n') ++ D) =
+      joinE (P0 ++ List.replicate k '\n').length
+        (docRule cls (extOfSrc (P0 ++ List.replicate k '\n')) r (P0 ++ List.replicate k '\n'))
+        (docRule cls (extOfSrc D) r D) :=
+  separately_of_appends r hr cls P0 D k _ _ _ (paragraphPair_atFree cls hc P0 D k hk hend hD hq hat)
+
+/-- the same for the abstract paragraph-local rules of `Props/C12.lean` -/
+theorem paragraphs_separately_atFree (cls : Cls) (hc : ClsOK cls) (P0 D : List Char) (k : Nat) (hk : 2 ≤ k)
+    (hend : NoNlEnd P0) (hD : D.head? ≠ some '\n') (hq : NoQuoteChars (P0 ++ List.replicate k '\n'))
+    (hat : ∀ c ∈ D, c ≠ '@') (r : Rule) (hr : XLocal r) :
+    ∃ lp ld, lintDoc cls (extOfSrc (P0 ++ List.replicate k '\n')) iterParagraphs r (P0 ++ List.replicate k '\n') = .ok lp ∧
+      lintDoc cls (extOfSrc D) iterParagraphs r D = .ok ld ∧
+      lintDoc cls (extOfSrc ((P0 ++ List.replicate k '\n') ++ D)) iterParagraphs r ((P0 ++ List.replicate k '\n') ++ D) =
+        .ok (lp ++ shiftLints (P0 ++ List.replicate k '\n').length ld) :=
+  have h := paragraphPair_atFree cls hc P0 D k hk hend hD hq hat
+  paragraphs_separately cls hc P0 D k hk hend hD hq _ _ _ h.ext_local h.ext_ok_p h.ext_ok_d h.ext_no_nl r hr
+
+/-- non-vacuity of `paragraphPair_atFree` / `separately_atFree`: `It cost 4$, ask a@b.c now.¶¶` + `the the: 4$` (the pair of
+`paragraphPair_mail`; its lints, in both paragraphs, are computed above) — the five conditions, all on the characters -/
+example : docRule asciiCls (extOfSrc ((['I', 't', ' ', 'c', 'o', 's', 't', ' ', '4', '$', ',', ' ', 'a', 's', 'k', ' ', 'a', '@', 'b', '.', 'c', ' ', 'n', 'o', 'w', '.'] ++ List.replicate 2 '\n') ++ ['t', 'h', 'e', ' ', 't', 'h', 'e', ':', ' ', '4', '$']))
+      (ruleCurrencyPlacement env0) ((['I', 't', ' ', 'c', 'o', 's', 't', ' ', '4', '$', ',', ' ', 'a', 's', 'k', ' ', 'a', '@', 'b', '.', 'c', ' ', 'n', 'o', 'w', '.'] ++ List.replicate 2 '\n') ++ ['t', 'h', 'e', ' ', 't', 'h', 'e', ':', ' ', '4', '$']) =
+    joinE (['I', 't', ' ', 'c', 'o', 's', 't', ' ', '4', '$', ',', ' ', 'a', 's', 'k', ' ', 'a', '@', 'b', '.', 'c', ' ', 'n', 'o', 'w', '.'] ++ List.replicate 2 '\n').length
+      (docRule asciiCls (extOfSrc (['I', 't', ' ', 'c', 'o', 's', 't', ' ', '4', '$', ',', ' ', 'a', 's', 'k', ' ', 'a', '@', 'b', '.', 'c', ' ', 'n', 'o', 'w', '.'] ++ List.replicate 2 '\n')) (ruleCurrencyPlacement env0) (['I', 't', ' ', 'c', 'o', 's', 't', ' ', '4', '$', ',', ' ', 'a', 's', 'k', ' ', 'a', '@', 'b', '.', 'c', ' ', 'n', 'o', 'w', '.'] ++ List.replicate 2 '\n'))
+      (docRule asciiCls (extOfSrc ['t', 'h', 'e', ' ', 't', 'h', 'e', ':', ' ', '4', '$']) (ruleCurrencyPlacement env0) ['t', 'h', 'e', ' ', 't', 'h', 'e', ':', ' ', '4', '$']) :=
+  separately_atFree _ (currencyPlacement_appends env0) asciiCls clsOK_ascii _ _ 2 (by decide) (by decide) (by decide) (by decide)
+    (by decide)
+
+/-- **`hat` is needed also when `P` contains no `@`**: `lex_url`'s login part looks for the FIRST `@` of the whole rest of
+the text. `Go to s://a.b/c now.¶¶` alone has the URL `s://a.b/c` (5..14); followed by `x@y` the URL is `s://` only -/
+example : extOfSrc (['G', 'o', ' ', 't', 'o', ' ', 's', ':', '/', '/', 'a', '.', 'b', '/', 'c', ' ', 'n', 'o', 'w', '.'] ++ List.replicate 2 '\n') 6 = some (.url, 9) ∧
+    extOfSrc ((['G', 'o', ' ', 't', 'o', ' ', 's', ':', '/', '/', 'a', '.', 'b', '/', 'c', ' ', 'n', 'o', 'w', '.'] ++ List.replicate 2 '\n') ++ ['x', '@', 'y']) 6 = some (.url, 4) := by decide
+
+/-- **`ParagraphPair.two` (`k ≥ 2`) is needed**: one newline does not end the paragraph — `the⏎` + `the` checked together
+is a repeated word across the newline (one lint, 0..7), checked separately it is nothing; with two newlines nothing
+is reported either way -/
+example : docRule asciiCls noExt (ruleRepeatedWords env0) ((['t', 'h', 'e'] ++ List.replicate 1 '\n') ++ ['t', 'h', 'e']) =
+      .ok [⟨⟨0, 7⟩, [.replaceWith ['t', 'h', 'e']], 5, 0⟩] ∧
+    docRule asciiCls noExt (ruleRepeatedWords env0) (['t', 'h', 'e'] ++ List.replicate 1 '\n') = .ok [] ∧
+    docRule asciiCls noExt (ruleRepeatedWords env0) ['t', 'h', 'e'] = .ok [] ∧
+    docRule asciiCls noExt (ruleRepeatedWords env0) ((['t', 'h', 'e'] ++ List.replicate 2 '\n') ++ ['t', 'h', 'e']) = .ok [] := by
+  decide
+
+/-- non-vacuity of `paragraphPair_atFree` with a URL and a hostname in `P` (so that `lexUrl_nl`, `lexUrl_noNl`,
+`lexHostnameToken_nl`, `lexHostnameToken_noNl` and everything below them are exercised on tokens that exist):
+`Go to s://a.b/c or x.y now.¶¶` + `the the` -/
+example : ParagraphPair asciiCls ['G', 'o', ' ', 't', 'o', ' ', 's', ':', '/', '/', 'a', '.', 'b', '/', 'c', ' ', 'o', 'r', ' ', 'x', '.', 'y', ' ', 'n', 'o', 'w', '.'] ['t', 'h', 'e', ' ', 't', 'h', 'e'] 2
+    (extOfSrc (['G', 'o', ' ', 't', 'o', ' ', 's', ':', '/', '/', 'a', '.', 'b', '/', 'c', ' ', 'o', 'r', ' ', 'x', '.', 'y', ' ', 'n', 'o', 'w', '.'] ++ List.replicate 2 '\n')) (extOfSrc ['t', 'h', 'e', ' ', 't', 'h', 'e']) (extOfSrc ((['G', 'o', ' ', 't', 'o', ' ', 's', ':', '/', '/', 'a', '.', 'b', '/', 'c', ' ', 'o', 'r', ' ', 'x', '.', 'y', ' ', 'n', 'o', 'w', '.'] ++ List.replicate 2 '\n') ++ ['t', 'h', 'e', ' ', 't', 'h', 'e'])) :=
+  paragraphPair_atFree asciiCls clsOK_ascii _ _ 2 (by decide) (by decide) (by decide) (by decide) (by decide)
+
+example : extOfSrc ((['G', 'o', ' ', 't', 'o', ' ', 's', ':', '/', '/', 'a', '.', 'b', '/', 'c', ' ', 'o', 'r', ' ', 'x', '.', 'y', ' ', 'n', 'o', 'w', '.'] ++ List.replicate 2 '\n') ++ ['t', 'h', 'e', ' ', 't', 'h', 'e']) 6 = some (.url, 9) ∧
+    extOfSrc ((['G', 'o', ' ', 't', 'o', ' ', 's', ':', '/', '/', 'a', '.', 'b', '/', 'c', ' ', 'o', 'r', ' ', 'x', '.', 'y', ' ', 'n', 'o', 'w', '.'] ++ List.replicate 2 '\n') ++ ['t', 'h', 'e', ' ', 't', 'h', 'e']) 19 = some (.hostname, 3) := by decide
+
+/-- … and RepeatedWords on it: nothing in `P`, `the the` behind it at 29..36 -/
+example : docRule asciiCls (extOfSrc ((['G', 'o', ' ', 't', 'o', ' ', 's', ':', '/', '/', 'a', '.', 'b', '/', 'c', ' ', 'o', 'r', ' ', 'x', '.', 'y', ' ', 'n', 'o', 'w', '.'] ++ List.replicate 2 '\n') ++ ['t', 'h', 'e', ' ', 't', 'h', 'e'])) (ruleRepeatedWords env0) ((['G', 'o', ' ', 't', 'o', ' ', 's', ':', '/', '/', 'a', '.', 'b', '/', 'c', ' ', 'o', 'r', ' ', 'x', '.', 'y', ' ', 'n', 'o', 'w', '.'] ++ List.replicate 2 '\n') ++ ['t', 'h', 'e', ' ', 't', 'h', 'e']) =
+    .ok [⟨⟨29, 36⟩, [.replaceWith ['t', 'h', 'e']], 5, 0⟩] := by decide
+
+/-- non-vacuity of `paragraphPair_noExt` and of `unclosedQuotes_local_noquotes` in the case it is about — a quotation
+mark in `D`, none in `P`: `a.¶¶` + `b"`; the unclosed quote of `D` (1..2 alone) is reported at 5..6 -/
+example : docRule asciiCls noExt (ruleUnclosedQuotes env0) ((['a', '.'] ++ List.replicate 2 '\n') ++ ['b', '"']) =
+    joinE (['a', '.'] ++ List.replicate 2 '\n').length
+      (docRule asciiCls noExt (ruleUnclosedQuotes env0) (['a', '.'] ++ List.replicate 2 '\n'))
+      (docRule asciiCls noExt (ruleUnclosedQuotes env0) ['b', '"']) :=
+  unclosedQuotes_local_noquotes env0 asciiCls _ _ 2 _ _ _
+    (paragraphPair_noExt asciiCls clsOK_ascii ['a', '.'] ['b', '"'] 2 (by decide) (by decide) (by decide) (by decide))
+
+example : docRule asciiCls noExt (ruleUnclosedQuotes env0) ((['a', '.'] ++ List.replicate 2 '\n') ++ ['b', '"']) =
+    .ok [⟨⟨5, 6⟩, [], 8, 0⟩] := by decide
 
 end Harper.C12
